@@ -382,7 +382,36 @@ class StmtMixin:
                 except _Break:
                     break
             return
-        spec.run(self, node, env, path)
+        self.run_while_with_spec(node, env, path, spec)
+
+    def run_while_with_spec(self, node, env, path, spec):
+        """Inductive treatment of a while loop.
+        (A) init: the invariant holds on entry (obligation), path ends;
+        (B) arbitrary iteration: havoc the loop state, assume the invariant; if the test is false the loop is
+            left and execution continues after it; if it is true the body runs: a `return`/`raise` leaves the
+            function under the invariant, otherwise the invariant must be re-established (obligation) and the
+            variant must decrease (obligation, when a variant is given); path ends."""
+        if path.branch(path.fresh("loop_init", z3.BoolSort())):
+            self.obligations.append(("loop-init:" + spec.name, path.hyps, spec.inv(self, path, env, None)))
+            raise _PathEnd("loop-init")
+        spec.havoc(self, path, env, None)
+        path.assume(spec.inv(self, path, env, None))
+        v0 = spec.variant(self, path, env) if getattr(spec, "variant", None) else None
+        c = self.eval(node.test, env, path)
+        if not self.truth(c, path):
+            self.exec_block(node.orelse, env, path)
+            return
+        try:
+            self.exec_block(node.body, env, path)
+        except _Continue:
+            pass
+        except _Break:
+            raise Unsupported("break in while loop under invariant")
+        self.obligations.append(("loop-preserve:" + spec.name, path.hyps, spec.inv(self, path, env, None)))
+        if v0 is not None:
+            v1 = spec.variant(self, path, env)
+            self.obligations.append(("loop-variant-decreases:" + spec.name, path.hyps, z3.And(v1 < v0, v0 >= 0)))
+        raise _PathEnd("loop-preserve")
 
 
 class _PathEnd(Exception):
